@@ -238,6 +238,9 @@ def run(chk):
         chk.violation("floor", "C18.mixed", "expected >= 27 mixed operator impls, found %d" % nm)
     check_doc_tables(chk, prog)
     chk.extra.update({"int_ops": n, "mixed_ops": nm})
+    import witness
+    if chk.tier == "thorough":
+        witness.check(chk, "typelevel", "C18", "C18.docs")
     chk.assume("integer overflow/wrapping not modelled", "f32 rounding of the casts is NOT decided: ulp, monotonicity and round-trip bounds are not claimed")
     chk.extra["std_models"] = sorted(sim.stats["models_used"])
     return ("Value-graph extraction by abstract interpretation: integer operator impls, conversion functions and mixed operators are reduced to "
